@@ -547,8 +547,18 @@ def multiplicity_sinks(fnode, seeds):
                         if isinstance(x, ast.Name) and x.id not in carry:
                             carry.add(x.id)
                             changed = True
+    # an emptiness test (count compared with 0) does not depend on multiplicities: a list is empty iff its set is
+    emptiness = set()
+    for n in ast.walk(fnode):
+        if isinstance(n, ast.Compare) and len(n.ops) == 1 and len(n.comparators) == 1:
+            a, b = n.left, n.comparators[0]
+            for x, y in ((a, b), (b, a)):
+                if isinstance(y, ast.Constant) and y.value == 0 and not isinstance(y.value, bool):
+                    emptiness.add(id(x))
     out = []
     for n in ast.walk(fnode):
+        if id(n) in emptiness:
+            continue
         if isinstance(n, ast.Call):
             d = dotted(n.func) or ""
             if d in MULT_COUNTERS and any(carries(a) for a in n.args):
